@@ -414,3 +414,33 @@ func TestPool(t *testing.T) {
 		t.Fatalf("outcomes %v", got)
 	}
 }
+
+// OnceValue and Map: the value is computed once under every schedule; a check-then-store on a Map by two threads shows
+// both outcomes (the lost update is a schedule of the explored space, every Map operation being a scheduling point)
+func TestOnceValueAndMap(t *testing.T) {
+	got, st := exploreAll(t, -1, func() string {
+		computed := 0
+		get := vsched.OnceValue(func() int { computed++; vsched.Point("computing"); return 7 })
+		var m vsched.Map
+		var wg vsched.WaitGroup
+		wg.Add(2)
+		sum := 0
+		for i := 0; i < 2; i++ {
+			vsched.Go(func() {
+				sum += get()
+				n := 0
+				if v, ok := m.Load("k"); ok {
+					n = v.(int)
+				}
+				m.Store("k", n+1)
+				wg.Done()
+			})
+		}
+		wg.Wait()
+		v, _ := m.Load("k")
+		return fmt.Sprint(computed, sum, v)
+	})
+	if !reflect.DeepEqual(keys(got), []string{"1 14 1", "1 14 2"}) {
+		t.Fatalf("outcomes %v over %d schedules", got, st.Leaves)
+	}
+}
